@@ -50,8 +50,10 @@ class SimTopaz(object):
     def block_locked(self, b):
         if b < 8:
             return bool(self.mem[112] >> b & 1)
-        if b < 16:
+        if b < 15:
             return bool(self.mem[113] >> (b - 8) & 1)
+        if b == 15:
+            return False                  # block Fh holds lock / reserved bytes itself (OR-written), it has no lock bit
         if self.dynamic:
             k = b - 16
             return bool(self.mem[122 + k // 8] >> (k % 8) & 1)
